@@ -4,3 +4,5 @@ From Coq Require Import ExtrOcamlBasic.
 From LokyV Require Import Model.TokenFlow Model.TokenFlowCheck.
 Extraction Language OCaml.
 Extraction "tokenflow.ml" TokenFlow.init TokenFlowCheck.validate.
+From LokyV Require Import Model.Cond Model.CondCheck.
+Extraction "condcheck.ml" Cond.init CondCheck.validate CondCheck.any_assert_failed.
